@@ -305,20 +305,21 @@ def check_data_case(acc, case, key):
     cs, ps = make_saving(case["csav"]), make_saving(case["psav"])
     import skchange.anomaly_detectors.mvcapa as mv
 
+    Xtrain = Xf if not case.get("fit_rows") else Xf.iloc[: case["fit_rows"]]
     if case["det"] == "CAPA":
         det = CAPA(cs, ps, collective_penalty_scale=pen[1], point_penalty_scale=pen[2], min_segment_length=msl,
                    max_segment_length=M)
-        det.fit(Xf)
+        det.fit(Xtrain)
         ca, cb, pa, pb = float(det.collective_penalty_), (0.0,) * p, float(det.point_penalty_), (0.0,) * p
     elif pen[0] == "callable":
         ca, cb, pa, pb = float(pen[1]), tuple(map(float, pen[2])), float(pen[3]), tuple(map(float, pen[4]))
         det = MVCAPA(cs, ps, collective_penalty=ConstPenalty(ca, cb), point_penalty=ConstPenalty(pa, pb),
                      min_segment_length=msl, max_segment_length=M)
-        det.fit(Xf)
+        det.fit(Xtrain)
     else:
         det = MVCAPA(cs, ps, collective_penalty=pen[1], collective_penalty_scale=pen[2], point_penalty=pen[3],
                      point_penalty_scale=pen[4], min_segment_length=msl, max_segment_length=M)
-        det.fit(Xf)
+        det.fit(Xtrain)
         ca, cb = mv.capa_penalty_factory(pen[1])(n, p, cs.get_param_size(1), scale=pen[2])
         pa, pb = mv.capa_penalty_factory(pen[3])(n, p, ps.get_param_size(1), scale=pen[4])
         ca, cb, pa, pb = float(ca), tuple(map(float, cb)), float(pa), tuple(map(float, pb))
@@ -453,6 +454,13 @@ def data_configs(tier, seed):
     for n in range(4, (8 if tier == "quick" else 10) + 1):
         out.append(("MVCAPA", (0, 2), n, 1, "L2Saving", "L2Saving", 2, n, ("callable", 3.0, (2,), 5, (1,))))
         out.append(("CAPA", (0, 2), n, 1, "L2Saving", "L2Saving", 2, n, ("scale", 1.0, 0.7)))
+    # fitted on a SHORTER prefix, predicting the full series (penalties read back from the fitted detector; the
+    # optimality statement is about the data given to predict, whatever the training length was)
+    for n in range(5, (8 if tier == "quick" else 9) + 1):
+        for k in (2, 3, n - 1):
+            out.append(("CAPA", (0, 2), n, 1, "L2Saving", "L2Saving", 2, 100, ("scale", 0.3, 0.3), k))
+            if k != 3:
+                out.append(("MVCAPA", (0, 2), n, 1, "L2Saving", "L2Saving", 2, 100, ("callable", 2.0, (1,), 4, (1,)), k))
     if tier == "thorough":
         out.append(("MVCAPA", (0, 1, 2), 6, 2, "L2Saving", "L2Saving", 2, 6, ("callable", 0.5, (3, 3), 4, (4, 4))))
         out.append(("MVCAPA", (0, 2), 4, 3, "L2Saving", "L2Saving", 2, 4, ("callable", 0.5, (3, 3, 3), 4, (4, 4, 4))))
@@ -515,10 +523,13 @@ def run_shard(shard):
                     check_case(acc, case)
     else:
         _, tier, seed, ci, lo, hi = shard
-        det, alph, n, p, csav, psav, msl, M, pen = data_configs(tier, seed)[ci]
+        cfg = data_configs(tier, seed)[ci]
+        det, alph, n, p, csav, psav, msl, M, pen = cfg[:9]
         for flat in itertools.islice(itertools.product(alph, repeat=n * p), lo, hi):
             x = [list(flat[i * p:(i + 1) * p]) for i in range(n)]
             case = {"mode": "data", "det": det, "x": x, "csav": csav, "psav": psav, "msl": msl, "M": M, "pen": list(pen)}
+            if len(cfg) > 9:
+                case["fit_rows"] = cfg[9]
             check_case(acc, case)
     return acc
 
